@@ -85,7 +85,13 @@ def move(fn, result):
     if exists:
         os.unlink(fn)
     else:
-        shutil.move(fn, nfn)
+        # shutil.move degrades to copy-then-unlink when staging and store
+        # are on different devices; a crash or a full disk in the middle of
+        # that copy must never leave a torn file under a digest name, so
+        # land next to the destination first and rename (atomic) afterwards
+        tmp = nfn + '.part'
+        shutil.move(fn, tmp)
+        os.rename(tmp, nfn)
 
     return result, exists
 
